@@ -122,7 +122,7 @@ def run(prog, rep, tier):
                                                             "SE": "an element of self attribute", "D": "the default value of", "G": "module-level object", "U": "the array returned by the user's callable"}[kind], name, f.qname, via)
                 if note_only:
                     rep.notes.append("NOTE drf: " + msg)
-                elif kind == "G":
+                elif kind == "G" and module_state_managed(w.site[2], [l]):
                     # module-level state (a cache, a registry) is written: results are *able* to depend on earlier calls; whether they do - a memo table
                     # with a sound key does not - is not decided by the ownership domain
                     rep.unk(rule, site_where(w.site), msg + ": hidden state between calls, not decided whether results can depend on it")
